@@ -11,7 +11,7 @@ use std::{
 
 use bytes::Bytes;
 use rustic_backend::{LocalBackend, OpenDALBackend};
-use rustic_core::{FileType, Id, WriteBackend};
+use rustic_core::{BytesList, FileType, Id, WriteBackend};
 use serde::{Deserialize, Serialize};
 use serde_json::{Value, json};
 use vkit::{
@@ -65,9 +65,41 @@ fn content(i: usize) -> Bytes {
     }
 }
 
+const N_SPLIT: usize = 8;
+
+/// the content as a `BytesList`: one part, or several parts incl. empty ones at every position
+fn parts(c: &Bytes, pattern: usize) -> BytesList {
+    let n = c.len();
+    let (a, b) = (c.slice(..n / 2), c.slice(n / 2..));
+    let e = Bytes::new;
+    let list: Vec<Bytes> = match pattern {
+        0 => vec![c.clone()],
+        1 => vec![a, b],
+        2 => vec![a, e(), b],
+        3 => vec![e(), e(), c.clone()],
+        4 => vec![a, b, e()],
+        5 => vec![a, e(), e(), b],
+        6 => vec![c.slice(..n.min(1)), e(), c.slice(n.min(1)..)],
+        _ => c.chunks(1500).map(|x| c.slice_ref(x)).chain([e()]).flat_map(|x| [x, e()]).collect(),
+    };
+    let mut l = BytesList::default();
+    for x in list {
+        l.add(x);
+    }
+    l
+}
+
 #[derive(Clone, Debug, Serialize, Deserialize, PartialEq, Eq, Hash)]
 enum Op {
-    Write { tpe: usize, id: usize, content: usize },
+    Write {
+        tpe: usize,
+        id: usize,
+        content: usize,
+        /// how the content is handed over as a list of parts (see `parts`); None = derived from the
+        /// other fields, so that the search meets all patterns without a larger alphabet
+        #[serde(default)]
+        split: Option<usize>,
+    },
     Remove { tpe: usize, id: usize },
 }
 
@@ -111,7 +143,7 @@ fn plant_strays(dir: &Path, strays: &[Stray]) {
 fn apply_model(m: &mut Store, op: &Op) -> bool {
     let i = ids();
     match op {
-        Op::Write { tpe, id, content: c } => {
+        Op::Write { tpe, id, content: c, .. } => {
             m.put(TYPES[*tpe], &i[*id], content(*c));
             true
         }
@@ -122,7 +154,10 @@ fn apply_model(m: &mut Store, op: &Op) -> bool {
 fn apply_real(be: &Arc<dyn WriteBackend>, op: &Op) -> Result<(), String> {
     let i = ids();
     match op {
-        Op::Write { tpe, id, content: c } => be.write_bytes(TYPES[*tpe], &i[*id], false, content(*c).into()).map_err(|e| e.display_log()),
+        Op::Write { tpe, id, content: c, split } => {
+            let pattern = split.unwrap_or((tpe * 3 + id + c) % N_SPLIT);
+            be.write_bytes(TYPES[*tpe], &i[*id], false, parts(&content(*c), pattern)).map_err(|e| e.display_log())
+        }
         Op::Remove { tpe, id } => be.remove(TYPES[*tpe], &i[*id], false).map_err(|e| e.display_log()),
     }
 }
@@ -212,6 +247,13 @@ fn copy_dir(src: &Path, dst: &Path) {
 
 /// run a history from scratch; after every step compare with the model
 fn run_case(c: &Case, sb: &Path, rep: &mut Report, observe_every_step: bool) -> Result<Store, (String, String)> {
+    *CURRENT.lock().unwrap() = Some((std::time::Instant::now(), format!("{:?}", c.kind), serde_json::to_string(c).unwrap_or_default()));
+    let r = run_case_inner(c, sb, rep, observe_every_step);
+    *CURRENT.lock().unwrap() = None;
+    r
+}
+
+fn run_case_inner(c: &Case, sb: &Path, rep: &mut Report, observe_every_step: bool) -> Result<Store, (String, String)> {
     let k = format!("{:?}", c.kind);
     let dir = sb.join("repo");
     _ = fs::remove_dir_all(&dir);
@@ -271,7 +313,7 @@ fn actions(types: &[usize], ncontent: usize, m: &Store) -> Vec<Op> {
         let nid = if TYPES[t] == FileType::Config { 1 } else { 3 };
         for id in 0..nid {
             for c in 0..ncontent {
-                v.push(Op::Write { tpe: t, id, content: c });
+                v.push(Op::Write { tpe: t, id, content: c, split: None });
             }
             // removing an absent file is explored once per type (id 0) only
             if m.get(TYPES[t], &i[id]).is_some() || id == 0 {
@@ -288,10 +330,41 @@ fn canon(m: &Store) -> String {
     v.join(",")
 }
 
+/// the case being executed and when it started (for the watchdog)
+static CURRENT: Mutex<Option<(std::time::Instant, String, String)>> = Mutex::new(None);
+
+/// A backend call which never returns cannot be interrupted from inside the process: a watchdog
+/// thread reports the running case as a violation and ends the worker.
+fn start_watchdog(args: &Args) {
+    let args = args.clone();
+    _ = std::thread::spawn(move || {
+        loop {
+            std::thread::sleep(std::time::Duration::from_millis(500));
+            let cur = CURRENT.lock().unwrap().clone();
+            if let Some((t0, kind, case)) = cur {
+                if t0.elapsed().as_secs() >= 120 {
+                    let mut rep = Report::new(&args);
+                    rep.property = "C20".into();
+                    rep.inc("executions");
+                    rep.violation(
+                        format!("C20/{kind}/operation-does-not-terminate"),
+                        "a backend operation of this history did not return within 120 s (the worker was ended by its watchdog)".to_string(),
+                        serde_json::from_str(&case).unwrap_or(Value::Null),
+                    );
+                    rep.cap("worker ended by the watchdog: the remaining cases of this shard were not explored".to_string());
+                    rep.finish(&args);
+                    std::process::exit(0);
+                }
+            }
+        }
+    });
+}
+
 fn main() {
     let args = Args::parse();
     let mut rep = Report::new(&args);
     rep.property = "C20".into();
+    start_watchdog(&args);
     let sb = sandbox(&format!("c20-{}", args.shard));
     run(&args, &mut rep, &sb);
     _ = fs::remove_dir_all(&sb);
@@ -311,7 +384,7 @@ fn run(args: &Args, rep: &mut Report, sb: &Path) {
     let quick = args.quick();
     let depth = if quick { 3 } else { 4 };
     let ncontent = if quick { 2 } else { 4 };
-    rep.set_meta("bounds", json!(format!("BFS depth {depth} over write/remove on types {{config, snapshot, pack}} x 3 ids (two sharing a data/xx directory) x {ncontent} contents (0 B, 4097 B{}), depth 2 over all five types; after every step every list, list_with_size, read_full of every id and read_partial over the grid {{0,1,mid,len-1,len,4095,4096}}^2 in range is compared with the map model; for LocalBackend additionally with each single stray kind and all strays together; crash image at the pre-publish hook of every LocalBackend write", if quick { "" } else { ", 1 B, 3 MiB" })));
+    rep.set_meta("bounds", json!(format!("BFS depth {depth} over write/remove on types {{config, snapshot, pack}} x 3 ids (two sharing a data/xx directory) x {ncontent} contents (0 B, 4097 B{}), depth 2 over all five types; after every step every list, list_with_size, read_full of every id and read_partial over the grid {{0,1,mid,len-1,len,4095,4096}}^2 in range is compared with the map model; for LocalBackend additionally with each single stray kind and all strays together; crash image at the pre-publish hook of every LocalBackend write; contents are handed over as lists of parts in 8 patterns (one part, two, empty parts first / in the middle / last, 1500-byte pieces), every pattern x 4 contents x 3 backends explicitly", if quick { "" } else { ", 1 B, 3 MiB" })));
     let all_strays = vec![Stray::NonHex, Stray::Hex63, Stray::Hex65, Stray::TmpFile, Stray::DirNamedLikeId, Stray::ForeignDataDir];
     let mut configs: Vec<(Kind, Vec<Stray>)> = vec![(Kind::Local, vec![]), (Kind::OpendalFs, vec![]), (Kind::OpendalMemory, vec![]), (Kind::Local, all_strays.clone()), (Kind::OpendalFs, all_strays.clone())];
     let mut first_level = 0usize;
@@ -365,11 +438,42 @@ fn run(args: &Args, rep: &mut Report, sb: &Path) {
             }
         }
     }
+    // every way of handing the content over as a list of parts x every content x every backend:
+    // a write followed by an overwrite with the other pattern parity
+    {
+        let mut i = 0usize;
+        for kind in [Kind::Local, Kind::OpendalFs, Kind::OpendalMemory] {
+            for c in 0..4 {
+                for pattern in 0..N_SPLIT {
+                    i += 1;
+                    if i % args.nshards != args.shard {
+                        continue;
+                    }
+                    let case = Case {
+                        kind,
+                        strays: vec![],
+                        history: vec![
+                            Op::Write { tpe: 4, id: 1, content: c, split: Some(pattern) },
+                            Op::Write { tpe: 2, id: 0, content: (c + 1) % 4, split: Some((pattern + 3) % N_SPLIT) },
+                        ],
+                    };
+                    rep.inc("executions");
+                    rep.inc("split_pattern_cases");
+                    if let Err((sig, msg)) = run_case(&case, sb, rep, true) {
+                        let sig = format!("{sig}[multi-part-write]");
+                        if !rep.has_violation(&sig) {
+                            rep.violation(sig, msg, serde_json::to_value(&case).unwrap());
+                        }
+                    }
+                }
+            }
+        }
+    }
     // single stray kinds incl. upper-case hex names, short histories
     if args.shard == 0 {
         for kind in [Kind::Local, Kind::OpendalFs] {
             for s in [Stray::NonHex, Stray::Hex63, Stray::Hex65, Stray::UpperHex, Stray::TmpFile, Stray::DirNamedLikeId, Stray::ForeignDataDir] {
-                let case = Case { kind, strays: vec![s.clone()], history: vec![Op::Write { tpe: 2, id: 0, content: 1 }, Op::Write { tpe: 4, id: 1, content: 2 }, Op::Remove { tpe: 2, id: 0 }] };
+                let case = Case { kind, strays: vec![s.clone()], history: vec![Op::Write { tpe: 2, id: 0, content: 1, split: None }, Op::Write { tpe: 4, id: 1, content: 2, split: None }, Op::Remove { tpe: 2, id: 0 }] };
                 rep.inc("executions");
                 rep.inc("single_stray_cases");
                 if let Err((sig, msg)) = run_case(&case, sb, rep, true) {
